@@ -108,7 +108,7 @@ Needs == { {}, {"T1"}, {"T2"}, {"Sp", "T1"} }
 Cases ==
   CASE Universe = "C16" ->
          { [lib |-> l, need |-> {"T2"}, page |-> p, o |-> o, enw |-> TRUE] :
-             l \in AcyclicLibs \cup {LSelf, LArg, LInvPre}, p \in CallPages \cup PfnPages \cup InvPages \cup CycPages, o \in Opts16 }
+             l \in AcyclicLibs \cup CyclicLibs \cup {LInvPre}, p \in CallPages \cup PfnPages \cup InvPages \cup CycPages \cup SiblingPages \cup DeepPagesQ, o \in Opts16 }
          \cup { [lib |-> LibBase, need |-> {"T2"}, page |-> p, o |-> o, enw |-> TRUE] : p \in LoopPages, o \in Opts16 }
     [] Universe = "C16Q" ->
          { [lib |-> l, need |-> {"T2"}, page |-> p, o |-> o, enw |-> TRUE] :
